@@ -1073,7 +1073,10 @@ func (g *gen) genTx(bi int) {
 		case 1:
 			s.ChainID = "otherchain"
 		case 2:
-			s.Mut = []string{"fee", "memo", "entropy", "msg", "sigbit", "sigtrunc", "pubkey", "sflip", "nomsg", "nopubstake"}[r.Intn(10)]
+			s.Mut = []string{"fee", "memo", "entropy", "msg", "sigbit", "sigtrunc", "pubkey", "sflip", "nomsg", "nopubstake", "msigshort"}[r.Intn(11)]
+			if isMultiType(g.kr.Get(s.SignBy).Type) && r.Chance(0.5) {
+				s.Mut = "msigshort"
+			}
 		case 3:
 			s.KeySrc = "state"
 		case 4:
